@@ -349,7 +349,7 @@ def _work(args):
 def run(run):
     import multiprocessing
     np = _np()
-    ncases = 3000 if run.thorough else 300
+    ncases = 3000 if run.thorough else 200
     cases = load_corpus()
     run.count("corpus", len(cases))
     while len(cases) < ncases:
